@@ -236,6 +236,8 @@ class SimSocket(object):
         self.st.shutdown = True
         self.w.rec({"k": "sock", "op": "shutdown", "sock": self.st.id})
         r = self.w.sc.get('shutdown_raises')
+        if r == 'boom':
+            raise Boom('shutdown')
         if r:
             raise OSError(107, 'not connected (sim)')
 
@@ -347,8 +349,21 @@ class _SimTime(object):
         return W.now()
 
 
+class _SimEnviron(object):
+    """os.environ as the scenario defines it (key 'env'); nothing leaks in from the real environment."""
+
+    def get(self, name, default=None):
+        return (W.sc.get('env') or {}).get(name, default)
+
+    def __getitem__(self, name):
+        return (W.sc.get('env') or {})[name]
+
+    def __contains__(self, name):
+        return name in (W.sc.get('env') or {})
+
+
 class _SimOS(object):
-    environ = os.environ
+    environ = _SimEnviron()
 
     @staticmethod
     def urandom(n):
@@ -907,14 +922,48 @@ def make_session_class(world, kind):
     return Session
 
 
+_COVER = {'seen': set(), 'dir': os.environ.get('VERIF_COVER')}
+
+
+def _cover_trace(frame, event, arg):
+    if frame.f_code.co_filename.startswith(_COVER['root']):
+        def local(fr, ev, a):
+            if ev == 'line':
+                _COVER['seen'].add((fr.f_code.co_filename, fr.f_lineno))
+            return local
+        _COVER['seen'].add((frame.f_code.co_filename, frame.f_lineno))
+        return local
+    return None
+
+
 def run_scenario(sc):
     """Execute one scenario against the real code.  Returns the list of trace records."""
+    if _COVER['dir']:
+        # optional line-coverage measurement of lomond/ under the checks (VERIF_COVER=<dir>): a development aid for finding
+        # code the scenario spaces never reach; not used by the registered commands
+        _COVER['root'] = os.path.dirname(lomond_modules()['session'].__file__)
+        n0 = len(_COVER['seen'])
+        sys.settrace(_cover_trace)
+        try:
+            return _run_scenario(sc)
+        finally:
+            sys.settrace(None)
+            if len(_COVER['seen']) > n0:
+                with open(os.path.join(_COVER['dir'], 'cov.%d' % os.getpid()), 'w') as fh:
+                    for f, l in sorted(_COVER['seen']):
+                        fh.write('%s:%d\n' % (os.path.basename(f), l))
+    return _run_scenario(sc)
+
+
+def _run_scenario(sc):
     world = World(sc)
     m = install(world)
     WS, P, S = m['websocket'], m['persist'], m['session']
     ws_kwargs = dict(sc.get('ws_kwargs') or {})
     if 'proxies' not in ws_kwargs:
         ws_kwargs['proxies'] = {}
+    elif ws_kwargs['proxies'] == 'env':
+        ws_kwargs['proxies'] = None          # the mapping comes from HTTP_PROXY / HTTPS_PROXY of the scenario's 'env'
     ws = WS.WebSocket(sc.get('url', 'ws://example.com/'), **ws_kwargs)
     for h, v in sc.get('headers') or []:
         ws.add_header(h.encode('latin-1'), v.encode('latin-1'))
